@@ -7,6 +7,11 @@ open SigModel.Proto SigModel.Hub SigModel.Driver.HubCommon
 abbrev St := HubCommon.St
 
 def step (st : St) (op impl : List String) : St × String × String :=
-  stepWith (fun _ pre op impl => judgeC03 pre (SigModel.Hub.step pre op).1 op impl) st op impl
+  stepWith (fun st pre op impl =>
+    match judgeC03 pre (SigModel.Hub.step pre op).1 op impl with
+    | "ok" | "na" => (match judgeC03State st.lastDigest pre op impl with
+        | "na" => judgeC03 pre (SigModel.Hub.step pre op).1 op impl
+        | v => v)
+    | v => v) st op impl
 
 end SigModel.Driver.C03
